@@ -476,6 +476,8 @@ fn gen_case(n: u64, rng: &mut Rng, trigger_v4: bool, trigger_alias: bool, mask_h
     let with_props = pub_v5 && rng.chance(3, 4);
     let mut msgs = vec![];
     let mut alias_set: Vec<u16> = vec![];
+    // what each alias of the publisher currently stands for (a named use may re-map it, MQTT 5 3.3.2.3.4)
+    let mut alias_leaf: std::collections::HashMap<u16, String> = Default::default();
     for i in 0..k {
         let mask = if !with_props {
             0
@@ -495,13 +497,19 @@ fn gen_case(n: u64, rng: &mut Rng, trigger_v4: bool, trigger_alias: bool, mask_h
         } else {
             None
         };
+        let leaf: String = match alias {
+            // a named use maps (or re-maps) the alias to whatever topic it names
+            Some((a, true)) => {
+                let l = rng.pick(&["a", "a", "b"]).to_string();
+                alias_leaf.insert(a, l.clone());
+                l
+            }
+            // an alias-only use stands for the topic the alias was mapped to last
+            Some((a, false)) => alias_leaf.get(&a).cloned().unwrap_or_else(|| "a".into()),
+            None => rng.pick(&["a", "a", "b"]).to_string(),
+        };
         msgs.push(Msg {
-            // alias 1 <-> leaf a, alias 2 <-> leaf b keeps the expectation simple and still re-maps on every named use
-            leaf: match alias {
-                Some((1, _)) => "a".into(),
-                Some((_, _)) => "b".into(),
-                None => rng.pick(&["a", "a", "b"]).to_string(),
-            },
+            leaf,
             qos: rng.below(3) as u8,
             retain: rng.chance(1, 3),
             payload_len: if rng.chance(1, 40) { 20_000 } else { *rng.pick(&[0usize, 0, 0, 100, 127, 128, 300]) },
